@@ -114,4 +114,14 @@ CHECKS["C09"] = {
             "bit for bit on every date, and every run is also compared with the model.",
     "note": COMMON_NOTE + " Partial: the theorem is per step under the model's level-closed paper_step (a child of a child is followed one level at a time); children whose stack acts on the "
             "synthetic pre-start row are excluded by the property's quantifier (calendar-gated stacks) and by the generator."}
+CHECKS["C10"] = {
+    "text": "Theorems (ill-formed half, every input): an allocation at a missing or zero price, a missing price or coupon on an open position, duplicate ticker "
+            "columns, a return on a zero base / zero notional (exact characterisation: the index is kept iff no P&L occurred, otherwise EZeroBase / EZeroNotl), a "
+            "fixed-income strategy directly under a market-value parent (whatever the root), and a custom-price trade without bid/offer data each make the model "
+            "return the matching error instead of a state. Well-formed half (decided on the implementation, not by a theorem): generated well-formed backtests must "
+            "complete, record only finite numbers in every history row, and 13 report accessors must complete with finite numbers, on the interpreted build and "
+            "(thorough tier) on the Cython build compiled from the current tree; an ill-formed stream (10 classes x random numbers + duplicate tickers) must raise "
+            "exactly the expected error; all runs are also compared with the model bit for bit.",
+    "note": COMMON_NOTE + " Completion / finiteness under the installed pandas / numpy is a property of the runtime libraries: it is sampled, not proved (the model's total "
+            "functions say nothing about pandas). Known findings K1b (sizing search raises on ordinary numbers) and K15 (paper copy runs an ungated child stack on the synthetic row)."}
 NOT_APPLICABLE = {}
